@@ -264,7 +264,12 @@ impl Scenario for Cli {
                 let skip = parse_tree(&outs[3].1);
                 let only = parse_tree(&outs[4].1);
                 for ((f, n), (_tp, au, cnt)) in &group {
-                    let Some(info) = all.get(&(f.clone(), n.clone())) else {
+                    // the tree shows out-of-workspace editable installs under their virtual site-packages path
+                    let shown = match f.strip_prefix("../extsrc/") {
+                        Some(rest) => format!("{}/{}", super::ws::SITE, rest),
+                        None => f.clone(),
+                    };
+                    let Some(info) = all.get(&(shown, n.clone())) else {
                         out.violate("cli-list-misses-fixture", format!("`fixtures list` does not show {}:{} (parsed {} entries)", f, n, all.len()));
                         continue;
                     };
